@@ -23,6 +23,7 @@ var (
 	ErrNotInMulti        = errors.New("ERR EXEC without MULTI")
 	ErrOutOfRange        = errors.New("ERR index out of range")
 	ErrSyntaxError       = errors.New("ERR syntax error")
+	ErrTxAborted         = errors.New("ERR transaction aborted")
 	ErrUnknownCmd        = errors.New("ERR unknown command")
 	ErrUnknownSubcmd     = errors.New("ERR unknown subcommand")
 )
